@@ -1163,6 +1163,9 @@ class MyPyAstVisitor:
         elif isinstance(mypy_type, mp_types.NoneType):
             return sds_types.NamedType(name="None", qname="builtins.None")
         elif isinstance(mypy_type, mp_types.LiteralType):
+            if mypy_type.is_enum_literal():
+                # Literal[Color.RED]: a member of the enum, not the string "RED"
+                return self.mypy_type_to_abstract_type(mypy_type.fallback)
             return sds_types.LiteralType(literals=[mypy_type.value])
         elif isinstance(mypy_type, mp_types.UnboundType):
             if mypy_type.name in {"list", "set"}:
